@@ -217,6 +217,15 @@ func ruleSetMethods(c *Ctx) {
 					report("itertag", "the iterator's current tag is not updated to the new type", "read the value back through the same iterator")
 				}
 			}
+			if sp0.fn == "Iter.SetNull" && fill {
+				// a nulled container: the iterator's pending skip, if set, is the container's own extent (payload − off as
+				// they were on entry), so that the next Advance lands right behind the NOP run
+				for _, ef := range otherStores {
+					if ef.Target == "R.addNext" && ef.Val.String() != "R.cur-R.off" && !(ef.Val.IsConst() && ef.Val.K == 0) {
+						report("skip", "after SetNull on a container the iterator's pending skip is "+ef.Val.String()+", expected payload − off (the container's extent) or 0", "iterate an array with Advance, SetNull the first (container) element, go on: the following elements are skipped")
+					}
+				}
+			}
 			if sp0.fn == "Iter.SetBool" {
 				// the new tag depends on the argument: 't' under v, 'f' under !v
 				var vTrue, vFalse bool
